@@ -10,6 +10,7 @@ package share
 
 import (
 	"encoding/json"
+	"errors"
 	"fmt"
 	"os"
 
@@ -45,7 +46,7 @@ func RunDSSRecord(cfg DSSConfig, res *core.Result) error {
 	defer f.Close()
 	enc := json.NewEncoder(f)
 	srcs := pickSources(cfg.Sources)
-	ss := &sessions{m: map[string]*session{}, errs: map[string]string{}, seed: cfg.Seed}
+	ss := &sessions{m: map[string]*session{}, errs: map[string]string{}, seed: cfg.Seed, res: res, prop: cfg.Prop}
 	rng := core.Rng(cfg.Seed, "dss-record")
 	kinds := []string{"valid", "valid", "valid", "valid", "dup", "badvalue", "forged", "othersession", "othermsg", "badindex"}
 	events := 0
@@ -57,7 +58,8 @@ func RunDSSRecord(cfg DSSConfig, res *core.Result) error {
 			tmin = 1
 		}
 		t := tmin + rng.Intn(n-tmin+1)
-		s := ss.get(src, n, t)
+		class := []string{"nil", "empty", "b1", "text", "b64", "b4096"}[rng.Intn(6)]
+		s := ss.get(src, n, t, class)
 		if s == nil {
 			res.Skip(fmt.Sprintf("no %s keys for n=%d t=%d", src, n, t))
 			continue
@@ -65,7 +67,8 @@ func RunDSSRecord(cfg DSSConfig, res *core.Result) error {
 		p := rng.Intn(n)
 		d, err := dss.NewDSS(s.suite, s.secs[p], s.pubs, s.long[p], s.rnd[p], s.msg, uint32(t))
 		if err != nil {
-			return err
+			ss.refused(src, n, t, &setupRefused{"NewDSS", class, err})
+			continue
 		}
 		obj := run + 1
 		seq := 0
@@ -74,7 +77,7 @@ func RunDSSRecord(cfg DSSConfig, res *core.Result) error {
 			seq++
 			events++
 		}
-		emit("new", map[string]any{"n": n, "t": t, "p": p, "keys": src}, "ok")
+		emit("new", map[string]any{"n": n, "t": t, "p": p, "keys": src, "msg": class}, "ok")
 		steps := n + 2 + rng.Intn(n+4)
 		for k := 0; k < steps; k++ {
 			switch c := rng.Intn(10); {
@@ -99,8 +102,17 @@ func RunDSSRecord(cfg DSSConfig, res *core.Result) error {
 				if kind == "dup" {
 					kind = "valid" // the spec decides whether it is a duplicate
 				}
-				ps, err := s.concretise(kind, from, rng.Uint64())
+				ovs := []string{"ext", "empty", "flip"}
+				if len(s.msg) == 0 {
+					ovs = []string{"ext", "b1"}
+				}
+				ps, err := s.concretise(kind, ovs[rng.Intn(len(ovs))], from, rng.Uint64())
 				if err != nil {
+					var sr *setupRefused
+					if errors.As(err, &sr) {
+						ss.refused(src, n, t, sr)
+						break
+					}
 					return err
 				}
 				var perr error
